@@ -207,7 +207,10 @@ func omit(q *pb.Query, kind string, k int) (string, bool) {
 	case "unresolved-placeholder":
 		p.e.Value = &pb.Query_Expression_Eq{Eq: &pb.Query_Expression_Equal{Column: "a", Placeholder: int32(k%7 + 1)}}
 	case "unknown-column":
-		p.e.Value = &pb.Query_Expression_Eq{Eq: &pb.Query_Expression_Equal{Column: "no_such_column", Value: "x"}}
+		// names of many shapes: the error text that names the column is built
+		// from it (long, multi-byte, just around typical truncation lengths)
+		names := []string{"no_such_column", strings.Repeat("列", 100), strings.Repeat("колонка", 20), strings.Repeat("x", 300), strings.Repeat("é", 199), strings.Repeat("日本", 33) + "z", "", "\x00", "%s%d%!", "a\nb"}
+		p.e.Value = &pb.Query_Expression_Eq{Eq: &pb.Query_Expression_Equal{Column: names[k%len(names)], Value: "x"}}
 	case "empty-expression-operand-appended":
 		switch v := p.e.Value.(type) {
 		case *pb.Query_Expression_And_:
@@ -268,8 +271,11 @@ func drawReq(t *rapid.T, pool *gen.LeafPool, allowBig bool) Req {
 		if rapid.Bool().Draw(t, "surround") {
 			req.Queries = append([]*pb.Query{valid()}, append(req.Queries, valid())...)
 		}
-		if rapid.IntRange(0, 5).Draw(t, "gbunk") == 0 {
+		switch rapid.IntRange(0, 7).Draw(t, "gbkind") {
+		case 0:
 			q.GroupBy = []string{"no_such_column"}
+		case 1:
+			q.GroupBy = []string{strings.Repeat(rapid.SampledFrom([]string{"列", "колонка", "x", "é"}).Draw(t, "gbname"), rapid.SampledFrom([]int{20, 67, 100, 300}).Draw(t, "gbnamelen"))}
 		}
 		return Req{Wire: marshal(req), Kind: label}
 	case 8: // operand-count sweep: an AND/OR with exactly n operands (valid leaves)
@@ -288,7 +294,17 @@ func drawReq(t *rapid.T, pool *gen.LeafPool, allowBig bool) Req {
 		if rapid.Bool().Draw(t, "sweepnest") {
 			e = &pb.Query_Expression{Value: &pb.Query_Expression_Not_{Not: &pb.Query_Expression_Not{Expr: e}}}
 		}
-		return Req{Wire: marshal(&pb.QueryRequest{Queries: []*pb.Query{{Expr: e}}}), Kind: fmt.Sprintf("operand-count-%d", n)}
+		q := &pb.Query{Expr: e}
+		if len(pool.Cols) > 0 && rapid.IntRange(0, 2).Draw(t, "longgb") == 0 {
+			// a very long group-by list (one or two columns repeated): sizes that
+			// are computed as products over the list overflow
+			reps := rapid.SampledFrom([]int{7, 31, 40, 62, 63, 64, 65, 100, 200}).Draw(t, "gbreps")
+			for i := 0; i < reps; i++ {
+				q.GroupBy = append(q.GroupBy, pool.Cols[i%min(2, len(pool.Cols))])
+			}
+			return Req{Wire: marshal(&pb.QueryRequest{Queries: []*pb.Query{q}}), Kind: "long-group-by-list"}
+		}
+		return Req{Wire: marshal(&pb.QueryRequest{Queries: []*pb.Query{q}}), Kind: fmt.Sprintf("operand-count-%d", n)}
 	case 5: // nil / empty query entries
 		req := &pb.QueryRequest{Queries: []*pb.Query{{}, {Id: 4}, {GroupBy: []string{"a"}}}}
 		return Req{Wire: marshal(req), Kind: "empty-queries"}
@@ -378,7 +394,7 @@ func drawCase(t *rapid.T, nreq int) *Case {
 		// error flood: many cheap failing requests in a row (a handler that
 		// leaks something per failed request wears out)
 		bad := marshal(&pb.QueryRequest{Queries: []*pb.Query{{Expr: fix.ToPB(model.Eq("no_such_column", "x"))}, {}}})
-		k := rapid.SampledFrom([]int{140, 300, 600}).Draw(t, "floodn")
+		k := rapid.SampledFrom([]int{140, 260}).Draw(t, "floodn")
 		for i := 0; i < k; i++ {
 			c.Reqs = append(c.Reqs, Req{Wire: bad, Kind: "error-flood"})
 		}
@@ -487,7 +503,7 @@ func replay(cf *evid.CaseFile) error {
 
 func TestQuick(t *testing.T) {
 	fix.Pinned(t, prop, replay)
-	fix.Check(t, "request", 40, func(rt *rapid.T) { run(rt, drawCase(rt, 30), "request") })
+	fix.Check(t, "request", 25, func(rt *rapid.T) { run(rt, drawCase(rt, 30), "request") })
 	prefilterSearch(t, 20000)
 }
 
